@@ -265,6 +265,81 @@ def run (ctx):
   _pack_gating(ctx, repo, lof)
   # ---- D11 ------------------------------------------------------------------------------------------------------
   _bitfields(ctx, repo, nx)
+  _units(ctx, repo, (lof, nx))
+  _text_codec(ctx, repo, lof)
+
+def _units (ctx, repo, mods):
+  """R-UNITS: inside a decoder `length` (a parameter, or read from the structure's own header; `avail` likewise) counts bytes of this structure while the cursor, its saved start and len(raw) are
+  positions in the whole buffer.  A byte count handed on (to _read, a nested unpack, _unpack_actions ...) that involves
+  `length` may contain positions only as differences: the coefficients of all positions sum to zero.  `length - offset`
+  is right only while the structure happens to start at position 0."""
+  n = 0
+  for mod in mods:
+    fns = list(mod.funcs.values()) + [f for c in mod.classes.values() for f in c.methods.values()]
+    for f in fns:
+      ps = f.params
+      if 'offset' not in ps: continue
+      cur = {'offset'}
+      raw = ps[ps.index('offset') - 1] if ps.index('offset') > 0 else None
+      changed = True
+      while changed:
+        changed = False
+        for t, v, st, k in q.stores_in(f.node, nested=False):
+          if not isinstance(t, ast.Name) or t.id in cur or v is None: continue
+          if isinstance(v, ast.Name) and v.id in cur: cur.add(t.id); changed = True
+          elif isinstance(v, ast.Call) and any(isinstance(a, ast.Name) and a.id in cur for a in v.args):
+            # first element of an (offset, value) pair, or the returned offset itself
+            tg = st.targets[0] if isinstance(st, ast.Assign) else None
+            if tg is t or (isinstance(tg, ast.Tuple) and tg.elts and tg.elts[0] is t): cur.add(t.id); changed = True
+      for c in calls_in(f.node):
+        for a in list(c.args) + [k.value for k in c.keywords]:
+          if not isinstance(a, ast.BinOp): continue
+          lt = q.lin_terms(a)
+          if lt is None or not (lt[0].get('length') or lt[0].get('avail')): continue
+          n += 1
+          pos = sum(v for k_, v in lt[0].items() if k_ in cur or (raw and k_ == 'len(%s)' % raw))
+          ctx.ob('R-UNITS', f, "a byte count derived from `length` contains buffer positions only as differences", pos == 0,
+                 "%s" % norm(a) if pos == 0 else "`%s` mixes the structure's own length with the absolute position %s: it is right only when the structure starts at offset 0 of the buffer (a second entry of a list, or a body after a header, gets a wrong byte count)"
+                 % (norm(a), sorted(k_ for k_ in lt[0] if k_ in cur)), (mod, c), 'D3')
+  ctx.floor('length/position arithmetic sites', n, 12)
+
+def _text_codec (ctx, repo, lof):
+  """fixed-width zero-padded strings (port names, descriptions, table names): the reader must accept every byte string the
+  wire can carry and the writer must produce one byte per character, i.e. both use the same total single-byte codec"""
+  import codecs
+  rd = lof.funcs.get('_readzs'); wr = lof.funcs.get('_packzs')
+  if rd is None or wr is None: raise AnalysisError("_readzs/_packzs vanished")
+  ctx.analysed(rd); ctx.analysed(wr)
+  SINGLE_TOTAL = {'iso8859-1'}                       # codecs.lookup() canonical names
+  PARTIAL_OR_MULTI = {'utf-8', 'ascii', 'utf-16', 'utf-16-le', 'utf-16-be', 'utf-32', 'utf-7', 'utf-8-sig', 'idna', 'punycode', 'cp1252', 'gbk', 'big5', 'shift_jis', 'euc_jp'}
+  found = {}
+  for f, meth in ((rd, 'decode'), (wr, 'encode')):
+    cs = [c for c in calls_in(f.node) if call_name(c) == meth and isinstance(c.func, ast.Attribute)]
+    names = []
+    for c in cs:
+      a = c.args[0] if c.args else kwarg(c, 'encoding', 0)
+      v = repo.try_const(lof, a, None) if a is not None else 'utf-8'        # the default of str.encode / bytes.decode
+      if isinstance(v, str):
+        try: v = codecs.lookup(v).name
+        except LookupError: pass
+      names.append(v)
+    found[meth] = (names, cs)
+  for meth, f in (('decode', rd), ('encode', wr)):
+    names, cs = found[meth]
+    if not names:
+      ctx.undecided('R-AGREE', f, "zero-padded strings use a total single-byte codec", "no %s() call found" % meth, f, 'D2'); continue
+    for nm_, c in zip(names, cs):
+      if nm_ in SINGLE_TOTAL:
+        ctx.ob('R-AGREE', f, "zero-padded strings use a total single-byte codec", True, "%s(%r)" % (meth, nm_), (lof, c), 'D2')
+      elif nm_ in PARTIAL_OR_MULTI:
+        ctx.bad('R-AGREE', f, "zero-padded strings use a total single-byte codec",
+                "%s with codec %r: %s" % (meth, nm_, "bytes above 0x7f received from a switch (a port or description string) make the decoder raise or change length" if meth == 'decode'
+                                          else "a character above 0x7f becomes several bytes: the field overflows its fixed width or the value read back differs"), (lof, c), 'D2')
+      else:
+        ctx.undecided('R-AGREE', f, "zero-padded strings use a total single-byte codec", "codec %r is not in the table of known codecs" % (nm_,), (lof, c), 'D2')
+  dn = set(x for x in found['decode'][0]); en = set(x for x in found['encode'][0])
+  if dn and en and all(isinstance(x, str) for x in dn | en):
+    ctx.ob('R-SIB', rd, "reader and writer of zero-padded strings use the same codec", dn == en, "both %s" % sorted(dn) if dn == en else "reader decodes with %s, writer encodes with %s" % (sorted(dn), sorted(en)), rd, 'D2')
 
 def _benign_nx (d):
   w = d[1]
